@@ -290,6 +290,10 @@ def run(ctx, scratch):
                     init=init, force_bipartite=fb)
         lit = (wmat_lit(nrow, ncol, triples), seeds_lit(values), seeds_lit(values_row), seeds_lit(values_col),
                copt(init, lambda t: cq(Fraction(t))), cbool(fb))
+        if not malformed and m['fmt'] in ('csr', 'csc', 'coo') and len(triples) >= 2 and rng.random() < 0.15:
+            # the same estimator fitted first on the same matrix object with other (non-uniformly rescaled) weights
+            args['prior_factors'] = [rng.choice([1, 2, 3, 5]) for _ in range(len(triples))]
+            fam = fam + '_reweighted'
         if not malformed and rng.random() < 0.2:
             # the same fit on an estimator constructed with other parameters and re-parameterised before the fit
             other_iter = rng.choice([x for x in N_ITERS if x != n_iter] or [n_iter + 1])
